@@ -65,6 +65,20 @@ def apply_group(top, group):
   else: raise ValueError(group)
 
 
+def _struct_ilshift(self, other):
+  if other.__class__ is not self.__class__:
+    other = self.__class__.from_bits(other.to_bits())
+  def rec(a, b):
+    if isinstance(a, list):
+      for x, y in zip(a, b): rec(x, y)
+    elif hasattr(type(a), '__bitstruct_fields__'):
+      for f in a.__bitstruct_fields__: rec(getattr(a, f), getattr(b, f))
+    else:
+      a <<= b
+  rec(self, other)
+  return self
+
+
 class _record_ilshift:
   """oracle independent of the double-buffer machinery: while active, `x <<= v` on a Bits only records (x, value)"""
   def __init__(s): s.log = []
@@ -84,9 +98,16 @@ class _record_ilshift:
       log.append((self, val))
       return self
     Bits.__ilshift__ = rec
+    # struct <<= value: walk the leaves ourselves instead of trusting the generated per-field code
+    import gc
+    s.structs = {}
+    for c in [o for o in gc.get_objects() if isinstance(o, type) and hasattr(o, '__bitstruct_fields__')]:
+      s.structs[c] = c.__ilshift__
+      c.__ilshift__ = _struct_ilshift
     return s
   def __exit__(s, *a):
     s.B.__ilshift__ = s.orig
+    for c, f in s.structs.items(): c.__ilshift__ = f
 
 
 def edge_check(make_top, group, state, ff_order=None):
@@ -121,6 +142,8 @@ def edge_check(make_top, group, state, ff_order=None):
   top.sim_tick()
   for i, (n, o) in objs.items():
     dbuf = i in F
+    if dbuf and not (0 <= o._uint < (1 << o.nbits)):
+      return f"after the edge {n} holds the invalid payload {o._uint} (not in [0, 2^{o.nbits}))"
     if dbuf and int(o._uint) != F[i]:
       return f"after the edge {n} = {int(o._uint):#x}, but the last value assigned with <<= on pre-edge values is {F[i]:#x} (group {group})"
   # registers nobody assigned keep their value: check the flagged ones
